@@ -288,6 +288,14 @@ class Evaluator:
         st.heap = sub.heap
         if top:
             self.top_state = sub
+        if not top and isinstance(node, ast.Call) and len(self.frames) >= 1 and self.frames[-1].func is not None:
+            # in-place writes into a parameter's array are writes into the caller's array
+            for p_, expr in self._callee_arg_exprs(self.frames[-1].func, node):
+                if isinstance(expr, (ast.Name, ast.Attribute)) and p_ in sub.env and p_ in env and not (sub.env[p_] is env[p_]):
+                    try:
+                        self.rebind(expr, sub.env[p_], st)
+                    except Exception:
+                        pass
         if falls and (fr.returns or self._returns_values(fi)):
             # control may fall off the end of a function that also returns values (on this or on other paths): implicit None
             fr.returns.append((sub.guard, NONE))
@@ -737,8 +745,64 @@ class Evaluator:
         st.imports.update(a.imports)
         st.imports.update(b.imports)
 
+    def mutated_params(self, fi: FuncInfo, depth: int = 0) -> set:
+        """parameters of a repository function whose array the function writes in place (`p[...] = v`, `p[...] += v`, `out=p`, or handing p on to
+        a function that does) without ever re-binding the name: the caller's array changes"""
+        memo = self.__dict__.setdefault('_mutated_memo', {})
+        if fi.qualname in memo:
+            return memo[fi.qualname]
+        memo[fi.qualname] = set()
+        ps = set(fi.params())
+        rebound, written = set(), set()
+        for n in ast.walk(fi.node):
+            if isinstance(n, (ast.Assign, ast.AugAssign, ast.AnnAssign, ast.For)):
+                tgts = n.targets if isinstance(n, ast.Assign) else [n.target]
+                for t in tgts:
+                    for x in ast.walk(t):
+                        if isinstance(x, ast.Name) and isinstance(x.ctx, ast.Store) and x.id in ps:
+                            rebound.add(x.id)
+                    if isinstance(t, ast.Subscript) and isinstance(t.value, ast.Name) and t.value.id in ps:
+                        written.add(t.value.id)
+            elif isinstance(n, ast.Call):
+                for k_ in n.keywords:
+                    if k_.arg == 'out' and isinstance(k_.value, ast.Name) and k_.value.id in ps:
+                        written.add(k_.value.id)
+                if depth < 3:
+                    for p_, expr in self._callee_arg_exprs(fi, n, depth):
+                        if isinstance(expr, ast.Name) and expr.id in ps:
+                            written.add(expr.id)
+        memo[fi.qualname] = written - rebound
+        return memo[fi.qualname]
+
+    def _callee_arg_exprs(self, fi: FuncInfo, call: ast.Call, depth: int = 0):
+        """(parameter, argument expression) for the parameters the resolved repository callee of `call` mutates in place"""
+        try:
+            r = self.prog.resolve_expr(fi.module, call.func, {})
+        except Exception:
+            r = None
+        if r is None or r[0] != 'func':
+            return []
+        cfi = r[2]
+        mp = self.mutated_params(cfi, depth + 1)
+        if not mp:
+            return []
+        cps = cfi.params()
+        if cfi.cls is not None and not cfi.is_static:
+            cps = cps[1:]
+        out = []
+        for i, a in enumerate(call.args):
+            if isinstance(a, ast.Starred):
+                break
+            if i < len(cps) and cps[i] in mp:
+                out.append((cps[i], a))
+        for k_ in call.keywords:
+            if k_.arg in mp:
+                out.append((k_.arg, k_.value))
+        return out
+
     def assigned_in(self, stmts) -> Tuple[set, list]:
         names, stores = set(), []
+        cur_fi = self.frames[-1].func if self.frames else None
         # names bound (in this block) to a basic slice of an array are views of it: updating them in place updates the parent
         views = {}
         for s in stmts:
@@ -754,6 +818,11 @@ class Evaluator:
             for n in ast.walk(s):
                 if isinstance(n, ast.AugAssign) and isinstance(n.target, ast.Name) and n.target.id in views:
                     add_store(views[n.target.id])
+                if isinstance(n, ast.Call) and cur_fi is not None:
+                    # a call that writes into the array passed for one of its parameters
+                    for p_, expr in self._callee_arg_exprs(cur_fi, n):
+                        if isinstance(expr, (ast.Name, ast.Attribute)):
+                            add_store(expr)
                 if isinstance(n, ast.Call):
                     for k_ in n.keywords:
                         if k_.arg == 'out' and isinstance(k_.value, ast.Name):
@@ -1064,6 +1133,9 @@ class Evaluator:
             return self.element_of(a.args[0], idx)
         if isinstance(a, Tup):
             return Term('item', (a, Num(idx)))
+        if isinstance(a, Term) and a.head == 'listcomp' and len(a.args) == 2 and isinstance(a.args[0], (Term, Tup)):
+            # element i of [f($i) | $i < n] whose items are not numbers (slices, tuples, ...): the item expression at i
+            return a.args[0].subst(lambda r: sym.subst(r, {sym.idx_atom(): idx}))
         if isinstance(a, (Term, Gam)) and getattr(a, 'kind', 'unknown') not in ('tuple', 'dict', 'str', 'object'):
             return term_as_num(a, True, getattr(a, 'kind', None)).at(idx)
         return Term('item', (a, Num(idx)))
@@ -2324,6 +2396,17 @@ def h_dot(ev, pos, kw, st, node):
     return Num(sym.mk_sum(a.r * b.r, a.length))
 
 
+def h_column_stack(ev, pos, kw, st, node):
+    """column_stack((A, B, ...)) of 1-D arrays of one extent: row j is (A[j], B[j], ...) - as a sequence of rows it is zip(A, B, ...)"""
+    seq = _arg(pos, kw, 0, 'tup')
+    if not isinstance(seq, Tup) or len(pos) > 1 or (set(kw) - {'tup'}) or len(seq.items) < 2:
+        return None
+    cols = [x if isinstance(x, Num) else ev.as_num(x, True) for x in seq.items]
+    if any(c is None or c.length is None for c in cols) or any(not (c.length == cols[0].length) for c in cols[1:]):
+        return None
+    return Term('zip', tuple(cols), kind='rows')
+
+
 def h_diff(ev, pos, kw, st, node):
     v = ev.as_num(_arg(pos, kw, 0, 'a'), True)
     if v is None or v.length is None or len(pos) > 1 or (set(kw) - {'a'}):
@@ -2795,7 +2878,7 @@ LIB_HANDLERS = {
     'numpy.add': h_binary('add'), 'numpy.subtract': h_binary('subtract'), 'numpy.multiply': h_binary('multiply'),
     'numpy.divide': h_binary('divide'), 'numpy.true_divide': h_binary('true_divide'), 'numpy.square': h_square, 'numpy.negative': h_negative,
     'numpy.shape': h_shape, 'numpy.size': h_size, 'numpy.where': lambda ev, pos, kw, st, node: (h_where_ew(ev, pos, kw, st, node) if len(pos) == 3 else h_nonzero_tuple(ev, pos, kw, st, node)), 'numpy.nonzero': h_nonzero_tuple, 'numpy.flatnonzero': h_flatnonzero,
-    'numpy.sum': h_sum, 'numpy.dot': h_dot, 'numpy.inner': h_dot, 'numpy.vdot': h_dot, 'numpy.diff': h_diff, 'numpy.abs': h_abs, 'numpy.absolute': h_abs, 'numpy.fabs': h_abs,
+    'numpy.sum': h_sum, 'numpy.column_stack': h_column_stack, 'numpy.dot': h_dot, 'numpy.inner': h_dot, 'numpy.vdot': h_dot, 'numpy.diff': h_diff, 'numpy.abs': h_abs, 'numpy.absolute': h_abs, 'numpy.fabs': h_abs,
     'numpy.mean': _reduce('Mean'), 'numpy.std': h_std, 'numpy.var': h_var, 'numpy.min': _reduce('Min'),
     'numpy.max': _reduce('Max'), 'numpy.amin': _reduce('Min'), 'numpy.amax': _reduce('Max'),
     'numpy.sqrt': h_sqrt, 'numpy.power': h_power, 'numpy.isscalar': h_isscalar, 'math.sqrt': h_sqrt, 'math.fabs': h_abs,
